@@ -366,8 +366,7 @@ class Model(EconomicObject):
         """
         Logger('Fixing aliases (Model._FixAliases)', priority=3)
         lookup = {}
-        for alias in self.Aliases:
-            sector, varname = self.Aliases[alias]
+        for alias, (sector, varname) in list(self.Aliases.items()):
             lookup[alias] = sector.GetVariableName(varname)
         for sector in self.GetSectors():
             sector._ReplaceAliases(lookup)
